@@ -82,7 +82,7 @@ func ruleCode128Encoder(c *Ctx) {
 			}
 			isData := false
 			for _, l := range loops {
-				if l.F == site.Fn && ix == l.elem && l.hdr.Succs[0].Dominates(call.Block()) {
+				if l.F == site.Fn && ix == l.elem && inLoopBody(l.hdr, call.Block()) {
 					dataCall, draw, isData = call, l, true
 					drawTop = call
 					if len(site.Path) > 0 {
@@ -129,7 +129,7 @@ func ruleCode128Encoder(c *Ctx) {
 			c.Check(R4, "code128.EncodeWithColor/same-values", dataCall.Pos(), s1 == s2, "the weighted sum runs over the symbol values that are drawn", fmt.Sprintf("sum over %s, drawn %s", s1, s2))
 			orderOK := dominatesInstr(checkCall, stopCall)
 			if draw.F == fn {
-				orderOK = orderOK && hdr.Dominates(checkCall.Block()) && !hdr.Succs[0].Dominates(checkCall.Block())
+				orderOK = orderOK && hdr.Dominates(checkCall.Block()) && !inLoopBody(hdr, checkCall.Block())
 			} else {
 				orderOK = orderOK && dominatesInstr(drawTop, checkCall)
 			}
@@ -157,7 +157,7 @@ func ruleCode128Encoder(c *Ctx) {
 							continue
 						}
 						got = n.Norm(ret.Results[ridx]).String()
-						if !pEqual(n.Norm(ret.Results[ridx]), MustRef("sum % 103")) || sumL.hdr.Succs[0].Dominates(ret.Block()) {
+						if !pEqual(n.Norm(ret.Results[ridx]), MustRef("sum % 103")) || inLoopBody(sumL.hdr, ret.Block()) {
 							good = false
 						}
 					}
@@ -182,7 +182,8 @@ func ruleCode128Encoder(c *Ctx) {
 				pred := sh.Preds[ei]
 				edge := cAnd(n.ReachCond(sumL.F, sh.Succs[0], pred), n.EdgeCond(pred, sh))
 				for _, cs := range n.valueCases(sumL.F, sh.Succs[0], e, 0) {
-					cc := cAnd(edge, cs.cond)
+					// the position counts up from 0 (range index): p + 1 >= 0 throughout
+					cc := cAnd(cAnd(edge, cs.cond), MustRefCond("p + 1 >= 0"))
 					val := cs.val
 					// in the first iteration the running sum still has its initial value 0
 					if imp, _, _ := CondRelation(cc, MustRefCond("p + 1 == 0")); imp {
@@ -191,7 +192,7 @@ func ruleCode128Encoder(c *Ctx) {
 					upd = append(upd, valCase{val, cc})
 				}
 			}
-			checkCases(c, R4, "code128.EncodeWithColor/sum-update", sumP.Pos(), mergeCases(upd), []edgeSpec{{"v", "p + 1 == 0"}, {"sum + (p+1)*v", "p + 1 != 0"}})
+			checkCases(c, R4, "code128.EncodeWithColor/sum-update", sumP.Pos(), mergeCases(upd), []edgeSpec{{"v", "p + 1 == 0"}, {"sum + (p+1)*v", "p + 1 > 0"}})
 		}
 	}
 	if fn := c.theFunc(R4, "code128.EncodeWithoutChecksumWithColor"); fn != nil && addBit != nil {
